@@ -216,7 +216,8 @@ ICall ==
   /\ IF \E k \in 1..Len(I.cargs) : ~Defined(I.cargs[k].val) THEN Stop("undef-temp")
      ELSE IF CalleeIdx = 0 THEN Stop("unsupported-extern-call")
      ELSE LET g == Funcs[CalleeIdx] IN
-       IF Len(g.params) # Len(I.cargs) \/ Len(frames) >= 40 THEN Stop(IF Len(frames) >= 40 THEN "stack-depth" ELSE "call-arity")
+       IF g.variadic THEN Stop("unsupported-float-or-vararg")
+       ELSE IF Len(g.params) # Len(I.cargs) \/ Len(frames) >= 40 THEN Stop(IF Len(frames) >= 40 THEN "stack-depth" ELSE "call-arity")
        ELSE IF \E k \in 1..Len(I.cargs) : I.cargs[k].cls \notin {"w", "l"} THEN Stop("unsupported-aggregate-arg")
        ELSE /\ frames' = Append(frames, [fn |-> fn, blk |-> blk, ip |-> ip, prev |-> prev, tmp |-> tmp, res |-> I.res, cls |-> I.cls])
             /\ tmp' = [n \in {g.params[k].name : k \in 1..Len(g.params)} |->
